@@ -63,6 +63,9 @@ CHECKS = {
  'C20': ('exploration', 'pamh+hx', 'AddressSanitizer + UBSan build of the unmodified C module driven by a scripted misbehaving server; syscall-wrapper monitor (select/read/write) for the bounded-time rule; exact reply-prefix oracle',
          'The module is compiled from /repo with clang -fsanitize=address,undefined against stub PAM headers and run against a scripted unix-socket server over ~420 cases (all option subsets x password sources, user/password lengths 0..4096, reply grammar incl. over-long and mis-announced lengths, replies cut at every byte, dribble, early close, silence and delays on both sides of the timeout, short reads/writes and EINTR injected by wrappers): PAM_SUCCESS exactly when the readable reply begins with OK, request bytes equal the saslauthd encoding of the clipped fields, every socket read/write preceded by a finite select, no sanitizer report.',
          'Stub PAM runtime; sanitizers are not a proof of memory safety; fds >= FD_SETSIZE out of scope.', '5 C20'),
+ 'C04': ('exploration', 'hx', 'differential monitor: every frontend of the running binary against store.Dir.Authenticate on the same quiescent directory',
+         'The built binary serves a saslauthd socket, HTTP and LDAP on loopback port 0 (addresses parsed from its output); generated credential pairs with bytes special to one transport, boundary lengths, name variants and hostile names are submitted through SASL, basic-auth, API (plain and fully \\u-escaped JSON), LDAP bind and the CLI, and every verdict is compared with the store verdict taken before and after; store states advance through CLI/API management operations; induced store errors must be denials; a 32-way concurrent phase checks that verdicts are not swapped.',
+         'The store verdict is the oracle (the library itself is judged by C01/C02); transport limits honoured by the generator as listed in the assumptions.', '5 C04'),
 }
 
 def main():
